@@ -282,7 +282,7 @@ class MaterialFile(BaseMaterial):
 
     def _read_file(self):
         """Read the material file."""
-        with open(self.filename, 'r') as stream:
+        with open(self.filename, 'r', encoding='utf-8') as stream:
             return yaml.safe_load(stream)
 
     def _set_formula_type(self, formula_type):
